@@ -847,3 +847,17 @@ fn applied_trait_or_foreign_type_name() {
         }
     }
 }
+
+#[test]
+fn impl_value_for_undeclared_associated_type() {
+    lowering_error! {
+        program {
+            trait Foo { }
+            struct S { }
+            impl Foo for S { type X = S; }
+        }
+        error_msg {
+            "no associated type `X` defined in trait"
+        }
+    }
+}
